@@ -91,6 +91,7 @@ pub fn run_property(ctx: &Ctx) -> Option<Report> {
             if mon == Monitor::C01 {
                 // the statement's size assumption made tight: a key-value that exactly fits
                 mtu::run_max_value(ctx, &mut r);
+                mtu::run_bulk(ctx, &mut r);
             }
             r
         }
@@ -209,6 +210,7 @@ pub fn replay_property(ctx: &Ctx, sub: &str, case: &serde_json::Value) -> SubRes
         },
         "C01" => match sub {
             "max-size-value" => mtu::replay_max_value(ctx, sub, case),
+            "bulk-compressible" => mtu::replay_bulk(ctx, sub, case),
             _ => sim::replay(ctx, sub, case, Monitor::C01),
         },
         "C02" => sim::replay(ctx, sub, case, Monitor::C02),
